@@ -65,6 +65,9 @@ def main():
 
   warnings.filterwarnings("ignore")
   import mujoco  # noqa: F401
+  import mujoco_warp as _mjw
+
+  print("mujoco_warp imported from", os.path.dirname(_mjw.__file__), flush=True)
 
   mod = importlib.import_module("sim.props." + job["property"].lower())
   for j in job["jobs"]:
